@@ -994,4 +994,32 @@ theorem dup_header_run (o : Opts) {path : Path} {put : Container → Cif} {code 
       exact dup_header_step o hv ns1 ns2 n' p0 ps ty tx ts s1 f w1 fs _ isBlock hc hwf hfresh hnd hne hname hdup hlen hwv hf hterm hF1)
     hfuel (fun _ => ⟨_, _, _, rfl, rfl⟩) hrest hF
 
+/-! ### a table key that cannot be a table index (it holds a character CIF does not allow): the entry is dropped -/
+
+/-- `… "k":value …}` where `cif_value_set_item_by_key` refuses the key: exactly one CIF_INVALID_INDEX, at the scanner's line behind
+    the key; the value is parsed and dropped; the table is the entries before and the entries behind -/
+theorem table_invalid_index_tail (o : Opts) (t : Tok) (s' : PS) (v : Val) (epost : List (Str × Presentation × Val))
+    (X : List TokSpec) (fuel : Nat) (s1 : PS) (w1 : W) (acc1 : List (Str × Str × V))
+    (hn : ∀ pol w, nextTok o s1 pol w = .ok (t, s') w) (hty : t.ty = .key) (hbad : hasDisallowed (cstr t.text) = true)
+    (hwv : wfVal o v = true) (hepost : wfEntries o epost = true) (hf : szVal v + szEntries epost + 3 ≤ fuel)
+    (hre : Feeds o (consume s') (valToks v ++ (entriesToks epost ++ (.ctable, [125]) :: X))) :
+    ∃ s2 r, tableLoop o fuel s1 acc1 acceptAll w1
+        = .ok (denoteEntries o.dia o.normKey epost acc1, s2) { w1 with log := r :: w1.log }
+      ∧ r.code = CIF_INVALID_INDEX ∧ r.line = s'.scan.line ∧ Feeds o s2 X := by
+  obtain ⟨F, rfl⟩ : ∃ F, fuel = F + 2 := ⟨fuel - 2, by omega⟩
+  obtain ⟨vty, vtx, vts, hvt, hstart, _⟩ := valToks_head v
+  have hr' := hre
+  rw [hvt, List.cons_append] at hr'
+  obtain ⟨t2, s2, hty2, htx2, hn2, ht2, hr2⟩ := hr'.inv
+  have hpend : Feeds o s2 (valToks v ++ (entriesToks epost ++ (.ctable, [125]) :: X)) := by
+    rw [hvt, List.cons_append, ← hty2, ← htx2]; exact Feeds.pending ht2 hr2
+  let r0 : Report := ⟨CIF_INVALID_INDEX, (consume s').scan.line, (consume s').scan.col⟩
+  obtain ⟨s3, h1, h2⟩ := value_structure o v _ s2 F acceptAll { w1 with log := r0 :: w1.log } hwv (by omega) hpend
+  obtain ⟨s4, h4, h5⟩ := entries_structure o epost X s3 F acceptAll { w1 with log := r0 :: w1.log } acc1 hepost (by omega) h2
+  refine ⟨s4, r0, ?_, rfl, rfl, h5⟩
+  rw [tableLoop]
+  simp only [bind_eq, pure_eq, P.bind, P.pure, hn, hty]
+  rw [tableEntry]
+  simp only [bind_eq, pure_eq, P.bind, P.pure, hbad, if_true, report_accept, hn2, hty2, hstart, h1, h4, r0]
+
 end CifModel.Model.Parser
